@@ -1076,6 +1076,31 @@ func evalBool(st *pstate, b *Sym) (bool, bool) {
 		if v, ok := st.facts[b.Key()]; ok {
 			return v, true
 		}
+		// x ≤ c ≡ x < c+1 and x > c ≡ x ≥ c+1 for integer constants: the same fact under the neighbouring constant
+		if b.Op != token.EQL && b.Op != token.NEQ && depthGuard < 2 {
+			if cb, ok := b.B.C, b.B.K == sConst && b.B.C != nil && b.B.C.Kind() == constant.Int; ok {
+				shift := func(op token.Token, d int64) (bool, bool) {
+					depthGuard++
+					defer func() { depthGuard-- }()
+					nc := constant.BinaryOp(cb, token.ADD, constant.MakeInt64(d))
+					return evalBool(st, &Sym{K: sCmp, Op: op, A: b.A, B: &Sym{K: sConst, C: nc, T: b.B.T}})
+				}
+				var v, known bool
+				switch b.Op {
+				case token.LSS:
+					v, known = shift(token.LEQ, -1)
+				case token.LEQ:
+					v, known = shift(token.LSS, 1)
+				case token.GTR:
+					v, known = shift(token.GEQ, 1)
+				case token.GEQ:
+					v, known = shift(token.GTR, -1)
+				}
+				if known {
+					return v, true
+				}
+			}
+		}
 		// c < R for a constant c: false for every c at or above one known not to be below R, true for every c at or below one
 		// known to be below R
 		if b.Op == token.LSS && b.A.K == sConst && b.A.C != nil && b.A.C.Kind() == constant.Int {
@@ -1126,6 +1151,8 @@ func evalBool(st *pstate, b *Sym) (bool, bool) {
 	}
 	return false, false
 }
+
+var depthGuard int
 
 func negOrd(op token.Token) token.Token {
 	switch op {
@@ -1280,6 +1307,14 @@ func evalEq(st *pstate, a, b *Sym) (bool, bool) {
 	if b.K == sConst {
 		if b.C == nil && definitelyNonNil(a) {
 			return false, true
+		}
+		// an unsigned x: x == 0 is the negation of x > 0
+		if b.C != nil && b.C.Kind() == constant.Int && constant.Sign(b.C) == 0 && a.T != nil {
+			if bt, ok := a.T.Underlying().(*types.Basic); ok && bt.Info()&types.IsUnsigned != 0 {
+				if v, ok := st.facts[(&Sym{K: sCmp, Op: token.GTR, A: a, B: b}).Key()]; ok {
+					return !v, true
+				}
+			}
 		}
 		// the kind of a value made by reflect.MakeSlice / Append / MakeMap is fixed by the call that made it
 		if a.K == sKind && b.C != nil && b.C.Kind() == constant.Int {
